@@ -416,6 +416,46 @@ def _(c):
     c.ensure("pass_structure", re.fullmatch(r"(M?L)?(AML)*(AM?)?", seq) is not None)
 
 
+def _grid_station_extra(tier, rng):
+    """stations at latitudes {43.6 N, 20 S, 2 N} x extra listeners given through events= {node + apside in EME2000, node + apside without a frame of their own, anomaly} x
+    step {60 s, 180 s}, ISS-like Kepler orbit over 14 h"""
+    for s in (0, 1, 2):
+        for ex in (0, 1, 2):
+            for st in (60.0, 180.0):
+                yield {"station": s, "extra": ex, "step": st}
+
+
+@contract("C10", "station_stream.extra", funcs=["beyond.frames.stations:TopocentricFrame.visibility", f"{LI}:Speaker.listen", f"{LI}:Listener.check"], grid=_grid_station_extra,
+          level="bounded")
+def _(c):
+    """bounded: with further listeners handed to visibility(), the stream is still exactly the above-horizon samples plus this station's AOS/LOS/MAX, plus the further
+    listeners' events *that lie above the horizon*: nothing below the horizon but the station's own events; the station events and the samples are the same as without the
+    further listeners; and the further listeners' events are those a plain iteration of the same orbit with fresh listeners finds (the samples the station frame was applied
+    to are not the ones the listeners compare with)"""
+    from beyond.dates import timedelta
+    from beyond.frames.stations import create_station
+    from beyond.propagators.listeners import NodeListener, ApsideListener, AnomalyListener
+    lat, lon = [(43.6, 1.4), (-20.0, 18.4), (2.0, -80.6)][c.integer("station")]
+    sta = create_station(f"VX{c.integer('station')}{c.integer('extra')}_{int(c.real('step'))}", (lat, lon, 100.0))
+    orb, _, d0, T = _mk_orbit("iss", "kepler")
+    step = c.real("step")
+    mk = [lambda: [NodeListener("EME2000"), ApsideListener("EME2000")], lambda: [NodeListener(), ApsideListener()], lambda: [AnomalyListener(1.0)]][c.integer("extra")]
+    kw = dict(start=d0, stop=d0 + timedelta(hours=14), step=timedelta(seconds=step))
+    key = lambda p: (p.date._d, round(p.date._s, 5), p.event.info if p.event else None)
+    base = [key(p) for p in sta.visibility(orb, events=True, **kw)]
+    extra = mk()
+    pts = list(sta.visibility(orb, events=extra, **kw))
+    station_events = ("AOS", "LOS", "MAX")
+    c.ensure("nothing_below_the_horizon_but_station_events", all(float(p.phi) >= -1e-9 or (p.event is not None and p.event.info in station_events) for p in pts))
+    c.ensure("samples_and_station_events_unchanged", [key(p) for p in pts if p.event is None or p.event.info in station_events] == base)
+    # the further listeners' events: those of a plain iteration (fresh listeners), kept when above the horizon
+    fresh = mk()
+    plain = [o for o in orb.iter(listeners=fresh, **kw) if o.event is not None]
+    want = [key(o) for o in plain if float(o.copy(frame=sta, form="spherical").phi) >= 0]
+    got = [key(p) for p in pts if p.event is not None and p.event.info not in station_events]
+    c.ensure("further_events_are_those_of_a_plain_iteration", got == want)
+
+
 def _grid_light(tier, rng):
     """ISS-like and Molniya orbits, sampling steps {60 s, 300 s}, umbra and penumbra listeners"""
     for o in (0, 1):
